@@ -121,7 +121,9 @@ def theorems_of(prop):
 def kernel_check(prop, thorough):
     """build the model + the property module, print axioms. returns dict"""
     res = {"ok": False, "log": "", "theorems": [], "axioms": {}, "failed": []}
-    rc, out = sh(["lake", "build", "O2oModel"] + [f"O2oModel.Props.{m}" for m in prop_modules(prop)] + ["driver"], cwd=LEAN, timeout=3600)
+    # only this property's theorem modules (with whatever they import) and the driver: an obligation of another property
+    # that no longer checks is that property's alarm, not this one's
+    rc, out = sh(["lake", "build"] + [f"O2oModel.Props.{m}" for m in prop_modules(prop)] + ["driver"], cwd=LEAN, timeout=3600)
     res["log"] = out[-6000:]
     thms = theorems_of(prop)
     res["theorems"] = thms
@@ -345,6 +347,9 @@ def run_check(prop, tier, seed):
     kf = [f for f in known_findings() if f["property"] == prop and f.get("status", "finding") == "finding"]
     oracle = P.run_oracle(prop, cases, results, seed, thorough, disagreements)
     cov["oracle"] = {k: oracle[k] for k in oracle if k not in ("failures",)}
+    if oracle.get("error"):
+        # an oracle that could not run to completion explored nothing: that is not a pass
+        broken.append({"kind": "oracle", "detail": oracle["error"], "log": ""})
     fresh = []
     known_hit = collections.OrderedDict()
     for f in oracle["failures"]:
